@@ -299,3 +299,35 @@ def install_polyfill():
 
 
 install_polyfill()
+
+
+def mtl_path_certificates(rng, site_prefix="certificate-on-path:MultiTaskBCD"):
+    """MultiTaskBCD.path over >= 2 alphas (intercept, non-centred targets, dense / CSC, both strategies): every alpha whose
+    stop_crit is <= tol must satisfy the multitask KKT conditions recomputed from (X, Y, W, b).  Returns (evaluations, failures)."""
+    import skglm.datafits as sd, skglm.penalties as sp, skglm.solvers as ss
+    from scipy import sparse
+    Xm, _ = make_problem(rng, kind="real")
+    n_, p_ = Xm.shape
+    T = rng.randint(1, 3)
+    Ym = Xm @ np.array([[rng.gauss(0, 1) if rng.random() < 0.5 else 0.0 for _ in range(T)] for _ in range(p_)]) + rng.choice([0.0, 2.0, -3.0]) \
+        + np.array([[rng.gauss(0, 0.2) for _ in range(T)] for _ in range(n_)])
+    fi_m = rng.random() < 0.7
+    am = float(np.max(np.linalg.norm(Xm.T @ (Ym - Ym.mean(axis=0) if fi_m else Ym), axis=1))) / n_
+    use_sp = rng.random() < 0.3
+    Xin = sparse.csc_matrix(Xm) if use_sp else np.asfortranarray(Xm)
+    strat = rng.choice(["subdiff", "fixpoint"])
+    alphas = np.array(sorted([am * f for f in rng.sample([0.8, 0.5, 0.2, 0.05], rng.randint(2, 3))], reverse=True))
+    res = ss.MultiTaskBCD(tol=1e-8, fit_intercept=fi_m, max_iter=300, ws_strategy=strat).path(
+        Xin, np.asfortranarray(Ym), cc(sd.QuadraticMultiTask()), cc(sp.L2_1(1.0)), alphas=alphas)
+    coefs, stops = np.asarray(res[1]), np.asarray(res[2])
+    ev, failures = 0, []
+    for t_, a in enumerate(alphas):
+        ev += 1
+        Wt = coefs[:, :, t_].T            # path returns (n_tasks, n_features + fit_intercept, n_alphas)
+        if stops[t_] <= 1e-8:
+            viol = mtl_violation(Xm, Ym, Wt[:p_], Wt[-1] if fi_m else 0.0, a, fi_m)
+            if viol > 1e-5:
+                failures.append(dict(site=site_prefix, input=dict(X=Xm.tolist(), Y=Ym.tolist(), fit_intercept=fi_m, alphas=alphas.tolist(), t=t_, sparse=use_sp, ws_strategy=strat),
+                                     observed=dict(W=Wt.tolist(), stop=float(stops[t_])), expected=dict(violation=viol)))
+                break
+    return ev, failures
